@@ -239,12 +239,12 @@ def m_block(stmts, env):
     fail(s, "Manager statement form not supported")
 
 
-def method(cls, name, params):
+def method(cls, name, params, kwarg=None):
     f = next((n for n in cls.body if isinstance(n, ast.FunctionDef) and n.name == name), None)
     if f is None:
         raise Unsupported(f"Manager.{name} not found")
     args = [a.arg for a in f.args.args]
-    if args != ["self"] + params or f.args.vararg or f.args.kwarg or f.decorator_list:
+    if args != ["self"] + params or f.args.vararg or (f.args.kwarg.arg if f.args.kwarg else None) != kwarg or f.decorator_list:
         fail(f, f"signature of Manager.{name} changed")
     return f
 
@@ -318,6 +318,13 @@ def find_class(tree, name):
     if c is None:
         raise Unsupported(f"class {name} not found")
     return c
+
+
+def same_body(f, wanted):
+    """the statements of f (docstrings and logger calls aside) are exactly the wanted ones, compared as syntax trees"""
+    got = [x for x in f.body if not is_docstring_or_log(x)]
+    want = [ast.parse(w).body[0] for w in wanted]
+    return len(got) == len(want) and all(ast.dump(a) == ast.dump(b) for a, b in zip(got, want))
 
 
 def body_src(f):
@@ -402,10 +409,52 @@ def gen_data(tasks):
             parts.append("dseq (dbind (d_query (src_find_tasks path_eqb sd_order start_order)) (fun tasks => src_run_tasks tasks))\n  ("); closes += 1
         else:
             fail(st, "Manager.set_value statement form not supported")
+    # ---- Manager.load (the texts are already evaluated to (target, expression) pairs: parsing is C11's subject)
+    ld = method(mg, "load", ["dump", "dct", "overwrite"])
+    want = ["if dct is None:\n    dct = self.containers",
+            "for lhs, rhs in dump:\n    lhs = eval(lhs, {'math': math}, dct)\n    rhs = eval(rhs, {'math': math}, dct)\n    task = ExprTask(lhs, rhs)\n"
+            "    if lhs in self.tasks:\n        if overwrite:\n            self.unregister(lhs)\n        else:\n            continue\n    self.register(task)"]
+    if not same_body(ld, want):
+        raise Unsupported("Manager.load changed:\n" + "\n".join(body_src(ld)))
+    load_def = ("(* dump: the (lhs, rhs) pairs after eval(), with the iteration orders of the two sets of each new ExprTask *)\n"
+                "Definition src_load (dump : list (path * expr * list path * list path)) (overwrite : bool) : DM unit :=\n"
+                "  d_for_each dump (fun item => let '(lhs, rhs, deps_order, targets_order) := item in\n"
+                "  let task := src_exprtask_init lhs rhs deps_order targets_order in\n"
+                "  d_ifelse (d_in_tasks lhs)\n"
+                "    (if overwrite then dseq (d_call (src_unregister path_eqb lhs)) (d_call (src_register path_eqb task))\n"
+                "     else dret tt)\n"
+                "    (d_call (src_register path_eqb task))).\n")
+    # ---- Manager.mk_fun / gen_fun
+    mk = method(mg, "mk_fun", ["name"], kwarg="kwargs")
+    want = ["varlist = kwargs.keys()", "start = set()", "for vref in kwargs.values():\n    vref._get_dependencies(start)",
+            "tasks = self.find_tasks(start)", "fdef = [f\"def {name}({','.join(varlist)}):\"]",
+            "for vname, vref in kwargs.items():\n    fdef.append(f'  {vref} = {vname}')",
+            "for tt in tasks:\n    fdef.append(f'  {tt}')", "fdef = '\\n'.join(fdef)", "return fdef"]
+    if not same_body(mk, want):
+        raise Unsupported("Manager.mk_fun changed:\n" + "\n".join(body_src(mk)))
+    gf = method(mg, "gen_fun", ["name"], kwarg="kwargs")
+    want = ["fdef = self.mk_fun(name, **kwargs)", "gbl = {}", "lcl = {}", "gbl.update(((k, r._owner) for k, r in self.containers.items()))",
+            "exec(fdef, gbl, lcl)", "return lcl[name]"]
+    if not same_body(gf, want):
+        raise Unsupported("Manager.gen_fun changed:\n" + "\n".join(body_src(gf)))
+    et_repr = method(et, "__repr__", [])
+    if not same_body(et_repr, ["return f'{self.taskid} = {self.expr}'"]):
+        raise Unsupported("ExprTask.__repr__ changed:\n" + "\n".join(body_src(et_repr)))
+    mkfun_def = ("(* mk_fun(name, x0=ref0, x1=ref1, ...): kwargs are the references in argument order; the result is the list of body\n"
+                 "   lines of the generated function (the def line carries no semantics beyond the parameter order) *)\n"
+                 "Definition src_mk_fun (kwargs : list path) (sd_order start_order : list path) (m : dmgr) : res (list fline * dmgr) :=\n"
+                 "  let start := fold_left d_deps_into kwargs [] in\n"
+                 "  if same_set path_eqb sd_order start then\n"
+                 "    match src_find_tasks path_eqb sd_order start_order m with\n"
+                 "    | Ok (tasks, m') => Ok (assign_lines 0 kwargs ++ map LTask tasks, m')\n"
+                 "    | Err e => Err e\n    end\n  else Err EOracle.\n\n"
+                 "(* a call of the function returned by gen_fun, with the values *)\n"
+                 "Definition src_gen_fun_call (kwargs : list path) (values : list node) (sd_order start_order : list path) : DM unit :=\n"
+                 "  dbind (d_query (src_mk_fun kwargs sd_order start_order)) (fun fdef => run_lines fdef values).\n")
     out.append("(* sd_order: iteration order of the set ref._get_dependencies(); start_order: of the start set in find_taskids *)\n"
                "Definition src_set_value (ref : path) (value : vsrc) (sd_order start_order : list path) : DM unit :=\n  "
                + "\n  ".join(parts) + "\n  dret tt" + ")" * closes + ".\n\nEnd Dispatch.\n")
-    return "\n".join(out)
+    return "\n".join(out) + "\n" + load_def + "\n" + mkfun_def
 
 
 OUT2 = os.path.join(VERIF, "coq", "gen", "GenTasksData.v")
